@@ -158,8 +158,8 @@ const (
 	tickLen    = 4 * time.Millisecond // ticked cases: length of a tick
 	tickMargin = 1 * time.Millisecond // no operation of a ticked case within this distance of a tick boundary
 	maxTick    = 12
-	shortLife = 300 * time.Millisecond // life of an `s` cookie, counted from the start of the case
-	shortSafe = 200 * time.Millisecond // everything before the first W must be over by then
+	shortLife  = 300 * time.Millisecond // life of an `s` cookie, counted from the start of the case
+	shortSafe  = 200 * time.Millisecond // everything before the first W must be over by then
 )
 
 // runJar runs a case; a case with a W that was too slow to reach it in time (machine under load) is run again.
